@@ -123,7 +123,8 @@ fn location_cases(ctx: &mut Ctx, src: &str) {
     ctx.stat_n("nodes_checked", w.nodes as u64);
     if !w.bad.is_empty() {
         // ranges are offsets into the tree text: if the tree lost a token (C02 finding) every later location is shifted
-        let lossy = { use apollo_parser::cst::CstNode; apollo_parser::Parser::new(src).parse().document().syntax().text().to_string() != src };
+        // only the recorded defect excuses it: every missing token is a type-position drop of ty.rs (pp::classify_loss)
+        let lossy = matches!(crate::pp::run_parser("doc", None, 500, src), Ok(p) if p.loss == crate::pp::Loss::TypePositionDropOnly);
         let key = if lossy { "ast-location-after-dropped-token" } else { "ast-location-wrong" };
         for b in w.bad.iter().take(2) { ctx.fail(key, src, b); }
     }
